@@ -125,6 +125,3 @@ def install(eng):
     eng.contract("gwf.backends.base:TrackingBackend.__exit__", self_type=B, params={"self": B, "exc": T.NONE},
                  modifies=DISK, ensures=CLOSE_ENS, raises=CLOSE_EXC, serves=["C09"])
 
-    from replay import enum_backend
-    for m in ("submit", "close", "__exit__", "status", "cancel", "_init_tracked", "_init_status"):
-        eng.replayers[f"gwf.backends.base:TrackingBackend.{m}"] = enum_backend.replay
